@@ -88,9 +88,11 @@ THEOREMS = [
     # round 2: well-formed challenges, Request.process_headers in front of the tools
     'CpProofs.C19.digestChallenge_wellformed',
     'CpProofs.C19.digestChallenge_wellformed_md5',
-    'CpProofs.C19.digestChallenge_wellformed_full_false',
+    'CpProofs.C19.digestChallenge_unchanged_for_plain_realms',
+    'CpProofs.C19.digestChallengeUnescaped_wellformed_false',
     'CpProofs.C19.basicChallenge_wellformed',
-    'CpProofs.C19.basicChallenge_wellformed_full_false',
+    'CpProofs.C19.basicChallenge_unchanged_for_plain_realms',
+    'CpProofs.C19.basicChallengeUnescaped_wellformed_false',
     'CpProofs.C19.processHeader_plain',
     'CpProofs.C19.digestRequest_undecodable',
     'CpProofs.C19.digestRequest_grant_iff',
@@ -131,8 +133,10 @@ LEVEL_TEXT = ('Proved in Lean for every Authorization header string, configurati
               'and reproduces the RFC 2617 section 3.5 response by kernel evaluation, digest_auth is evaluated end to end on '
               'literal header bytes, and "admitted => the client used the stored password" is proved for every H in the '
               'reduction form "... or an explicit collision of H exists". 401 challenges of both tools parse back to exactly '
-              'realm/nonce/algorithm/qop[/stale][/charset] for quote-free realms (false for a realm with a double quote: '
-              'refuted with a witness). Partial: completeness and never-5xx exclude qop=auth-int (both full statements are '
+              'realm/nonce/algorithm/qop[/stale][/charset] for EVERY realm and charset name (realm and charset written as '
+              'quoted-strings with quoted-pair escapes, nonce and H(A1) from the unescaped realm; the unescaped paste of the '
+              'code before the fix for F26 is refuted with witnesses and shown identical on realms free of quote/backslash). '
+              'Partial: completeness and never-5xx exclude qop=auth-int (both full statements are '
               'proved false with the F21 witness); collision resistance is a hypothesis (explicit); NFC and the RFC 2047 '
               'decoder are parameters; accept_charset values other than the UTF-8 / ISO-8859-1 / ASCII spellings are not generated.')
 LEVEL_NOTE = ('Trusted: Lean kernel (axioms propext, Classical.choice, Quot.sound only); lean/CpModel/Auth.lean as a '
@@ -156,18 +160,16 @@ ASSUMPTIONS = [
     'collision resistance of MD5 is outside any proof and stated as an explicit alternative: "only the right '
     'credentials pass" is the digest equality, and digest equality means the stored password was used or a collision '
     'of H is exhibited (digest_sound_password_or_collision)',
-    'realms contain no double quote or backslash where a well-formed challenge is demanded (basic_auth rejects the '
-    'former as a configuration error, digest_auth pastes both unescaped: only soundness is demanded of such '
-    'configurations, the model comparison pins the rest)',
+    'basic_auth refuses a realm containing a double quote with ValueError (kept by the fix for F26): such a '
+    'configuration answers 500 to every request and only soundness is demanded of it; every other realm, backslashes '
+    'and (Digest) double quotes included, is covered in full',
     'the entity body needed for qop=auth-int is not available to the tool (finding F21)',
-    'realms needing quoted-pair escaping (backslash; double quote for Digest) yield a challenge that does not read back '
-    'as the configured realm (finding F26, known; both full well-formedness statements are refuted with witnesses)',
     'the header uri field is not compared with the request target by the code; the statement is read as "the uri the '
     'header names" (RFC 2617 3.2.2.5 leaves the comparison to the server)',
 ]
 RULE = ('per generated configuration (tool x realm x accept_charset x store kind x debug flag x 2-5 users over ASCII / '
         'Latin-1 / non-BMP / colon / quote / NFD / empty-password / compatibility twins on which NFC, NFKC, NFD, casefold and '
-        'strip differ, stored and sent; 6 % realms with a double quote or backslash): headers produced by the independent '
+        'strip differ, stored and sent; 6 % realms with a double quote or backslash, which the challenges must escape): headers produced by the independent '
         'client for every user, qop x algorithm x method x nonce age, then one corruption drawn from a fixed catalogue '
         '(semantic: computed with wrong inputs, from the literal HA1 "None" for users without a secret, a method= parameter '
         'naming the method the digest was computed for; tamper: '
@@ -600,11 +602,6 @@ class World:
         text = cl.undo_rfc2047(obs['challenge'][0])
         ch = cl.parse_challenge(text)
         if ch is None or ch[0] != 'Digest':
-            if cl.awkward_realm(cfg['realm']):
-                # the realm is pasted unescaped: the challenge does not parse; take the nonce where it stands
-                import re
-                m = re.search(r', nonce="([^"]*)", algorithm=', text)
-                return m.group(1) if m else None
             return None
         return ch[1].get('nonce')
 
@@ -636,26 +633,6 @@ def canon_real(obs):
 # ----------------------------------------------------------------------------------------------
 # oracle
 # ----------------------------------------------------------------------------------------------
-F26 = 'F26:realm-needs-escaping:bad_challenge'
-
-
-def awkward_challenge(scheme, cfg, obs, case):
-    """401 challenge of a configuration whose realm contains `"` or `\\`"""
-    ch, why = cl.check_challenge(scheme, cfg, obs['challenge'])
-    if ch is not None:
-        return []
-    # the expected shape of the defect: exactly the unescaped paste, nothing else wrong
-    c = obs['challenge']
-    text = cl.undo_rfc2047(c[0]) if len(c) == 1 else None
-    if text is not None and text.startswith('%s realm="%s"' % (scheme, cfg['realm'])):
-        rest = text[len('%s realm="%s"' % (scheme, cfg['realm'])):]
-        if cl.parse_challenge(scheme + ' x="y"' + rest) is not None:
-            return [('401 challenge does not read back as the configured realm %r (the realm is pasted between the '
-                     'quotes without escaping): %r' % (cfg['realm'], text), F26)]
-    return [('401 with a malformed challenge (%s): %r' % (why, obs['challenge']), 'bad_challenge:%s:awkward-realm'
-             % scheme.lower())]
-
-
 def oracle(case, obs):
     """Failures of the property statement on this observation: list of (what, signature)."""
     cfg = case['cfg']
@@ -707,11 +684,6 @@ def oracle(case, obs):
                             % (obs['login'], case['header'], kind), 'digest_unsound:' + kind))
             return bad
         if mode == 'sound':
-            # a realm with a double quote / backslash: "nobody gets in without verifying credentials" is demanded in
-            # full; the challenge is pasted together without escaping and does not read back as the configured realm
-            # (finding F26, known) - any *other* defect of the challenge is still reported under its own signature
-            if st == 401:
-                bad += awkward_challenge('Digest', cfg, obs, case)
             return bad
         must_admit = (case['conforming'] and case['wellformed'] is True and prim is not None
                       and prim['digest_ok'] and prim['genuine'] and prim['age'] < cl.LIFETIME)
@@ -757,8 +729,8 @@ def oracle(case, obs):
                         % (obs['login'], case['header'], kind), 'basic_unsound:' + kind))
         return bad
     if mode == 'sound':
-        if st == 401:
-            bad += awkward_challenge('Basic', cfg, obs, case)
+        # basic_auth refuses a realm with a double quote (ValueError on every request): only "nobody gets in without
+        # verifying credentials" is demanded of a refused configuration; the model comparison pins the refusal
         return bad
     if case['conforming'] and case['wellformed'] is True and case.get('expect_login') is not None:
         bad.append(('correct credentials of %r rejected with %d: %r' % (case['expect_login'], st, case['header']),
@@ -833,6 +805,8 @@ def check_cases(ctx, world, cases, compare=True):
             ctx.oracle_fail(case, what, sig)
         if cfg.get('debug'):
             ctx.count('debug:on')
+        if cl.awkward_realm(cfg['realm']):
+            ctx.count('realm:needs quoted-pair:%s' % cfg['tool'])
         if case['header'] is not None and '=?' in case['header']:
             ctx.count('rfc2047:header contains =?')
         if compare and not case.get('no_model') and obs['status'] is not None and not obs.get('raised'):
